@@ -196,4 +196,57 @@ Section ElemCopies.
     destruct (elem_destruct L d) as [d1 e1]. cbn [e_mem e_fl e_bid e_aid]. unfold elem_holds.
     cbn [e_mem e_fl]. repeat split; assumption.
   Qed.
+  (* move assignment on the general path (unequal non-propagating allocators; a list with a
+     VaryingSize parameter, or a target without storage): whether a new block is requested or
+     the target's block is reused, the target ends up holding the source's tuple with its own
+     allocator; for these (trivially constructible) types the source keeps bytes and block *)
+  Theorem elem_move_assign_general_spec pocma ae d src t fc junk nb :
+    tuple_ok L fc 0 t -> elem_holds src t ->
+    (ae || pocma || (e_aid d =? e_aid src)) = false ->
+    (fixed_or_plain L && match e_bid d with Some _ => true | None => false end) = false ->
+    let '(d', src', evs, nb') := elem_move_assign pocma ae L d src junk nb in
+    elem_holds d' t /\ e_aid d' = e_aid d /\
+    e_bid d' = (if e_units d <? ref_bytes L (e_fl src) then Some nb else e_bid d) /\
+    e_mem src' = e_mem src /\ e_fl src' = e_fl src /\ e_bid src' = e_bid src.
+  Proof.
+    intros Ht [He Hfl] Hns Hpath. unfold elem_move_assign. rewrite Hns, Hpath.
+    assert (Hd : elem_destruct L d = (d, [])).
+    { unfold elem_destruct. destruct (e_bid d); [rewrite Hdt|]; reflexivity. }
+    rewrite Hd. unfold store_and_load. rewrite !construct_fields_triv by (apply Hct).
+    destruct (e_units d <? ref_bytes L (e_fl src)).
+    - rewrite Hfl.
+      pose proof (elem_from_ref_spec L Hwf Hct true (e_mem src) 0 t fc (bidn (e_bid src)) 0 junk nb Ht He
+                    ltac:(lia) SA_div0) as H.
+      unfold elem_from_ref, store_and_load in H. rewrite construct_fields_triv in H by (apply Hct).
+      cbn [e_mem e_fl e_bid e_aid e_units set_emem] in *.
+      destruct H as (_ & H2 & H3 & _). repeat split; assumption.
+    - rewrite Hfl.
+      pose proof (elem_from_ref_spec L Hwf Hct true (e_mem src) 0 t fc (bidn (e_bid src)) 0 (e_mem d) (bidn (e_bid d)) Ht He
+                    ltac:(lia) SA_div0) as H.
+      unfold elem_from_ref, store_and_load in H. rewrite construct_fields_triv in H by (apply Hct).
+      cbn [e_mem e_fl e_bid e_aid e_units set_emem] in *.
+      destruct H as (_ & H2 & H3 & _). repeat split; assumption.
+  Qed.
+  (* allocator-extended move constructor value_type(std::move(e), alloc): with an equal (or
+     always-equal) allocator the new element takes over block and tuple and the source is left
+     without memory; otherwise it gets a block of its own from the given allocator holding the
+     tuple, and the source keeps its block *)
+  Theorem elem_move_alloc_spec ae src t fc aid junk nb : tuple_ok L fc 0 t -> elem_holds src t ->
+    let '(d, src', evs, fresh) := elem_move_alloc ae L src aid junk nb in
+    elem_holds d t /\
+    (if ae || (aid =? e_aid src)
+     then e_bid d = e_bid src /\ e_bid src' = None /\ fresh = false
+     else e_bid d = Some nb /\ e_aid d = aid /\ e_units d = e_units src /\ e_bid src' = e_bid src /\
+          e_mem src' = e_mem src /\ fresh = true).
+  Proof.
+    intros Ht [He Hfl]. unfold elem_move_alloc.
+    destruct (ae || (aid =? e_aid src)).
+    - unfold elem_holds. cbn [elem_moved_from e_bid]. repeat split; assumption.
+    - unfold store_and_load. rewrite construct_fields_triv by (apply Hct). rewrite Hfl.
+      pose proof (elem_from_ref_spec L Hwf Hct true (e_mem src) 0 t fc (bidn (e_bid src)) aid junk nb Ht He
+                    ltac:(lia) SA_div0) as H.
+      unfold elem_from_ref, store_and_load in H. rewrite construct_fields_triv in H by (apply Hct).
+      cbn [e_mem e_fl e_bid e_aid e_units set_emem] in *.
+      destruct H as (_ & H2 & H3 & _). repeat split; assumption.
+  Qed.
 End ElemCopies.
